@@ -794,6 +794,142 @@ def translate(repo):
           "Definition src_wr_close_hi : N := %d." % wr[1],
           "Definition src_wr_ok_branch : list wr_after := [%s]." % "; ".join(wr[2]), ""]
 
+    # ---- src/http_conn.rs: handle_http_conn_once and handle_http_conn, statement by statement
+    once, loop = [], None
+    try:
+        hsrc = read(repo, "src/http_conn.rs")
+        ERR = {"Disconnected": "OEDisconnected", "AlreadyGotBody": "OEAlreadyGotBody",
+               "CacheDirNotConfigured": "OECacheDirNotConfigured"}
+        def oerr(name):
+            return ERR.get(name, "OEOther")
+        def block_at(t, i):
+            """t[i] == '{': returns (inside, index after the matching '}')"""
+            assert t[i] == "{"
+            d, j = 1, i + 1
+            while d:
+                d += {"{": 1, "}": -1}.get(t[j], 0)
+                j += 1
+            return t[i + 1:j - 1], j
+        def kind_arms(t):
+            arms = []
+            while t:
+                m = re.match(r"ResponseKind::(Normal|DropConnection|GetBodyAndReprocess\((?:\.\.|max_len)\))=>", t)
+                if not m:
+                    raise ValueError("kind arm %r" % t[:50])
+                pat = {"N": "KPNormal", "D": "KPDrop", "G": "KPGetBody"}[m.group(1)[0]]
+                binds = m.group(1).endswith("(max_len)")
+                t = t[m.end():]
+                if t.startswith("{"):
+                    inner, j = block_at(t, 0)
+                    t = t[j:]
+                    if t.startswith(","):
+                        t = t[1:]
+                    if inner == "":
+                        act = "KANothing"
+                    else:
+                        mm = re.fullmatch(r"letcache_dir=opt_cache_dir\.ok_or\(HttpError::(\w+)\)\?;"
+                                          r"req\.body=http_conn\.read_body_to_file\(cache_dir,max_len\)\.await\?;", inner)
+                        if not (mm and binds):
+                            raise ValueError("kind arm body %r" % inner[:60])
+                        act = "KAReadToFile %s" % oerr(mm.group(1))
+                else:
+                    mm = re.match(r"(first_response=Some\(response\)|returnErr\(HttpError::(\w+)\)),", t)
+                    if not mm:
+                        raise ValueError("kind arm action %r" % t[:50])
+                    act = "KAKeepFirst" if mm.group(2) is None else "KAReturnErr %s" % oerr(mm.group(2))
+                    t = t[mm.end():]
+                arms.append("(%s, %s)" % (pat, act))
+            return "[%s]" % "; ".join(arms)
+        t = re.sub(r"\s+", "", fn_body(hsrc, "pub async fn handle_http_conn_once"))
+        while t:
+            if t.startswith("letmutreq=http_conn.read_request().await?;"):
+                once.append("OSReadRequest"); t = t[len("letmutreq=http_conn.read_request().await?;"):]
+            elif t.startswith("letmutfirst_response=None;"):
+                once.append("OSInitFirst"); t = t[len("letmutfirst_response=None;"):]
+            elif t.startswith("match&req.body{"):
+                inner, j = block_at(t, len("match&req.body"))
+                t = t[j:]
+                arms = []
+                while inner:
+                    m = re.match(r"(RequestBody::PendingKnown\(len\)if\*len(<=|<)\(small_body_lenasu64\)|"
+                                 r"RequestBody::PendingKnown\(\.\.\)\|RequestBody::PendingUnknown|_)=>", inner)
+                    if not m:
+                        raise ValueError("body arm %r" % inner[:60])
+                    pat = ("BPWild" if m.group(1) == "_" else "BPPending" if m.group(2) is None
+                           else "BPKnownLe" if m.group(2) == "<=" else "BPKnownLt")
+                    b, j = block_at(inner, m.end())
+                    inner = inner[j:]
+                    if b == "":
+                        act = "BANothing"
+                    elif b == "req.body=http_conn.read_body_to_vec().await?;":
+                        act = "BAReadToVec"
+                    else:
+                        pre = "letresponse=request_handler.clone()(req.clone()).await;matchresponse.kind"
+                        if not b.startswith(pre + "{"):
+                            raise ValueError("body arm action %r" % b[:60])
+                        ka, j2 = block_at(b, len(pre))
+                        if b[j2:] != "":
+                            raise ValueError("after the kind match %r" % b[j2:][:40])
+                        act = "BAAskHandler %s" % kind_arms(ka)
+                    arms.append("(%s, %s)" % (pat, act))
+                once.append("OSMatchBody [%s]" % ";\n      ".join(arms))
+            elif t.startswith("letresponse=matchfirst_response{Some(response)=>response,None=>request_handler(req).await,};"):
+                once.append("OSAnswer")
+                t = t[len("letresponse=matchfirst_response{Some(response)=>response,None=>request_handler(req).await,};"):]
+            elif t.startswith("matchresponse.kind{"):
+                inner, j = block_at(t, len("matchresponse.kind"))
+                t = t[j:]
+                once.append("OSMatchKind %s" % kind_arms(inner))
+            else:
+                m = re.fullmatch(r"ifresponse\.is_normal\(\)&&\((response\.is_4xx\(\))?(\|\|)?(response\.is_5xx\(\))?\)"
+                                 r"\{let_ignored=http_conn\.write_response\(&response\)\.await;Err\(HttpError::(\w+)\)\}"
+                                 r"else\{http_conn\.write_response\(&response\)\.await\}", t)
+                if not m or (bool(m.group(1)) and bool(m.group(3))) != bool(m.group(2)):
+                    raise ValueError("statement %r" % t[:70])
+                once.append("OSWriteTail %s %s %s" % ("true" if m.group(1) else "false", "true" if m.group(3) else "false", oerr(m.group(4))))
+                t = ""
+        t = re.sub(r"\s+", "", fn_body(hsrc, "pub async fn handle_http_conn<"))
+        m = re.fullmatch(r"while!permit\.is_revoked\(\)\{(.*)\}", t)
+        if not m:
+            raise ValueError("handle_http_conn: not a single `while !permit.is_revoked()` loop")
+        t = m.group(1)
+        stmts = []
+        CALL = ("letresult=handle_http_conn_once(&muthttp_conn,opt_cache_dir.as_deref(),small_body_len,"
+                "async_request_handler.clone(),).await;")
+        while t:
+            if t.startswith("if!http_conn.is_ready(){return;}"):
+                stmts.append("LSReturnUnlessReady"); t = t[len("if!http_conn.is_ready(){return;}"):]
+            elif t.startswith(CALL):
+                stmts.append("LSOnce"); t = t[len(CALL):]
+            else:
+                m = re.fullmatch(r"matchresult\{Ok\(\(\)\)=>\{\}Err\(HttpError::Disconnected\)=>return,Err\(e\)=>\{(.*)\}\}", t)
+                if not m:
+                    raise ValueError("handle_http_conn statement %r" % t[:70])
+                acts, r = [], m.group(1)
+                FORMS = [(r'println!\("ERROR\{\}",e\.description\(\)\);', "LAPrint"),
+                         (r"let_ignored=http_conn\.write_response\(&e\.into\(\)\)\.await;", "LAWriteErrorResponse"),
+                         (r"http_conn\.shutdown_write\(\);", "LAShutdownWrite"), (r"return;", "LAReturn")]
+                while r:
+                    for pat, name in FORMS:
+                        mm = re.match(pat, r)
+                        if mm:
+                            acts.append(name); r = r[mm.end():]
+                            break
+                    else:
+                        raise ValueError("error arm %r" % r[:60])
+                stmts.append("LSMatchResult [%s]" % "; ".join(acts))
+                t = ""
+        loop = stmts
+        # `impl From<HttpError> for Response` is tied separately (status tables, C20)
+    except Exception as e:   # noqa
+        P.append("src/http_conn.rs handle_http_conn: cannot translate (%s)" % e)
+        once, loop = [], []
+    L += ["(* src/http_conn.rs handle_http_conn_once, statement by statement *)",
+          "Definition src_once : list once_stmt := [\n  %s]." % ";\n  ".join(once),
+          "(* src/http_conn.rs handle_http_conn: the body of `while !permit.is_revoked() { .. }` *)",
+          "Definition src_conn_loop : list loop_stmt := [%s]." % "; ".join(loop), ""]
+
+
     # ---- src/token_set.rs: TokenSet::new, the three ways to take a token, Token::drop -- statement by statement
     tk = dict(new=[], drop=[], takes=[])
     try:
@@ -875,7 +1011,7 @@ def translate(repo):
     items = [("chunk", "src/util.rs"), ("event_queue", "src/response.rs"), ("conn_buf", "src/http_conn.rs HttpConn.buf"), ("conn_guards", "src/http_conn.rs state guards"),
              ("time", "src/time.rs"), ("content_type", "src/content_type.rs"), ("log_prio", "src/log/logger.rs log()"),
              ("event_fmt", "src/event.rs"), ("regex", "src/head.rs"), ("cookie", "src/cookie.rs"), ("request", "src/request.rs"),
-             ("json", "src/log/tag_value.rs"), ("jsonl", "src/log/logger.rs write_jsonl"), ("writer", "src/log/log_file_writer.rs"), ("headers", "src/headers.rs"), ("pfs", "src/log/prefix_file_set.rs"), ("token_set", "src/token_set.rs"), ("write_response", "src/http_conn.rs write_response")]
+             ("json", "src/log/tag_value.rs"), ("jsonl", "src/log/logger.rs write_jsonl"), ("writer", "src/log/log_file_writer.rs"), ("headers", "src/headers.rs"), ("pfs", "src/log/prefix_file_set.rs"), ("token_set", "src/token_set.rs"), ("write_response", "src/http_conn.rs write_response"), ("conn_loop", "src/http_conn.rs handle_http_conn")]
     L.append("(* what the translator could not read, per item (0 everywhere = the translation is complete) *)")
     for key, prefix in items:
         L.append("Definition src_problems_%s : nat := %d." % (key, sum(1 for p in P if p.startswith(prefix))))
